@@ -21,12 +21,13 @@ VARIABLES l,        \* next line of Rec
           evals,    \* number of individual cases judged (family / run events count all their members)
           bad,      \* sequence of verdicts (capped)
           nbad,     \* total number of verdicts
+          badBy,    \* clause name -> number of verdicts (the list `bad` keeps the first few per clause)
           hits,     \* clause name -> number of events on which its antecedent held
           classes,  \* set of distinct event classes (for distinct_nontrivial)
           crcCache, \* memo of CRCs already computed: <<pdu, tl, ptype, label>> -> crc
           crcTab    \* the CRC table derived once from the bitwise definition (see GseCrc)
 
-vars == <<l, scn, tx, rx, tb, evals, bad, nbad, hits, classes, crcCache, crcTab>>
+vars == <<l, scn, tx, rx, tb, evals, bad, nbad, badBy, hits, classes, crcCache, crcTab>>
 
 \* ------------------------------------------------------------- utilities
 IsOkRes(r) == r.t \in {"completed", "fragmented"}
@@ -36,6 +37,9 @@ ResTag(r)  == IF r.t = "err" THEN r.e ELSE r.t
 \* extension of the list is "known" with its own data size; the last one is
 \* final iff it stands for the protocol type.
 TxMgr(exts, T) ==
+  \* plain encap with a type below 0x0100: the type field *is* a final
+  \* mandatory extension without data (signalling, e.g. NCR 0x0081)
+  IF Len(exts) = 0 THEN (IF T < 256 THEN (T :> [final |-> TRUE, size |-> 0]) ELSE NoMgr) ELSE
   LET n == Len(exts)
       ids == {exts[i].id : i \in {j \in 1..n : exts[j].id < 256}}
   IN [id \in ids |->
@@ -93,7 +97,9 @@ JudgeEncapQ(e, s, q, crc) ==
                      /\ (r.t = "fragmented" => w.fragId = e.fragid)
                      /\ (IF isExt THEN w.ptype0 = exts[1].id ELSE w.ptype0 = T)
                      /\ w.ptype = T
-                     /\ (IF isExt THEN w.exts = exts ELSE w.exts = <<>>)
+                     /\ (IF isExt THEN w.exts = exts
+                         ELSE IF T < 256 THEN w.exts = <<[id |-> T, data |-> <<>>]>>
+                         ELSE w.exts = <<>>)
       tlOk   == kindOk /\ w.ok /\ r.t = "fragmented" /\ ~isExt => w.tl = tl
       ctxOk  == kindOk /\ w.ok /\ r.t = "fragmented" =>
                      /\ r.ctx.id = e.fragid
@@ -275,12 +281,12 @@ Step(e, crc) ==
     [] OTHER ->
          RxStep(e, rx, tx, crc) @@ [tx |-> tx, tb |-> tb] @@ W1
 
-MaxBad == 400
+MaxPerClause == 6
 
 Init ==
   /\ l = 1 /\ scn = 0
   /\ tx = TxInit /\ rx = RxInit /\ tb = TabInit /\ evals = 0
-  /\ bad = <<>> /\ nbad = 0
+  /\ bad = <<>> /\ nbad = 0 /\ badBy = [c \in {} |-> 0]
   /\ hits = [c \in {} |-> 0]
   /\ classes = {}
   /\ crcCache = [k \in {} |-> ZeroCrc]
@@ -304,7 +310,10 @@ Consume ==
                                 ELSE (crc.key :> crc.val) @@ crcCache)
                           ELSE crcCache
            /\ nbad' = nbad + Len(nb)
-           /\ bad' = IF Len(bad) + Len(nb) <= MaxBad THEN bad \o tagged ELSE bad
+           /\ bad' = bad \o SelectSeq(tagged, LAMBDA x : (IF x.c \in DOMAIN badBy THEN badBy[x.c] ELSE 0) < MaxPerClause)
+           /\ badBy' = LET cs == {nb[i].c : i \in 1..Len(nb)}
+                        IN [c \in DOMAIN badBy \cup cs |->
+                              (IF c \in DOMAIN badBy THEN badBy[c] ELSE 0) + (IF c \in cs THEN 1 ELSE 0)]
            /\ hits' = [c \in DOMAIN hits \cup j.hits |->
                          (IF c \in DOMAIN hits THEN hits[c] ELSE 0) + (IF c \in j.hits THEN 1 ELSE 0)]
            /\ classes' = classes \cup {j.cls}
@@ -316,12 +325,12 @@ Consume ==
 Finish ==
   /\ l = Len(Rec) + 1
   /\ JsonSerialize(IOEnv.OUT,
-       [ consumed |-> l - 1, lines |-> Len(Rec), nbad |-> nbad, bad |-> bad,
+       [ consumed |-> l - 1, lines |-> Len(Rec), nbad |-> nbad, bad |-> bad, bad_by |-> badBy,
          hits |-> hits, nclasses |-> Cardinality(classes), scenarios |-> scn, evals |-> evals,
          hdr_dec_words |-> tb.hdrNext, hdr_enc_triples |-> tb.encCount,
          ext_new_ids |-> [d \in 0..10 |-> tb.extNext[d]] ])
   /\ l' = l + 1
-  /\ UNCHANGED <<scn, tx, rx, tb, evals, bad, nbad, hits, classes, crcCache, crcTab>>
+  /\ UNCHANGED <<scn, tx, rx, tb, evals, bad, nbad, badBy, hits, classes, crcCache, crcTab>>
 
 Next == Consume \/ Finish
 Spec == Init /\ [][Next]_vars
